@@ -35,7 +35,8 @@ EXTRA = ['Z', '0', '9', '-', '_', '\t', '\r', '\x00', '\x7f', '&', ':', ';', '"'
          '(', ')', '[', ']', '{', '}', '^', '`', '\x80', '\xff', '\u0100', '\u07ff', '\u0800', '\ud7ff', '\ue000', '\uffff',
          '\U00010000', '\U0010ffff', '\u00a0', '\u2028', '%2F', '%20', '@base64', '==', 'job']
 KEYS = ['a', 'b', 'B', 'Z', '_x', 'a1', 'a_', 'aa', 'ab', 'instance', 'Instance', 'job2', 'x9', '_', 'A', 'z', 'a0', 'aB', 'Ab']
-HOSTS = ['localhost:9091', 'pushgateway.local', '127.0.0.1:9091', '[::1]:9091', 'h', 'user:pw@h:9091', 'metrics.example.org']
+HOSTS = ['localhost:9091', 'pushgateway.local', '127.0.0.1:9091', '[::1]:9091', 'h', 'user:pw@h:9091', 'metrics.example.org',
+         'http-gw:9091', 'https-proxy:443', 'httpbin.internal:9091', 'http', 'ftp-gw:21']
 PREFIXES = ['', '', '', '/pg', '/a/b', '/metrics', '/job/x', '/pre fix', '/p//q']
 SCHEMES = [None, None, 'http', 'https', 'HTTP', 'Https']
 
